@@ -21,7 +21,7 @@ func init() {
 	core.Register(&core.Prop{
 		ID:    "C02",
 		Level: "exploration",
-		Rule: "generated templates biased to what consumes maps (for/tablerow over maps of 2..12 entries with offset/limit/reversed, map-to-array filters first/last/join/sort/map/reverse/uniq/size/concat/compact, printing of maps, IterationKeyedMap, yaml.MapSlice, nested maps, maps inside Drops) plus general generated programs and application tags that write variables (Context.Set, and through the map Context.Bindings returns); for every case ALL of these must give byte-identical output (or the same error text, line and path): 30 renders of one parsed template, 10 fresh parses, 5 fresh engines, the six entry points Render / RenderString / FRender / ParseAndRender / ParseAndRenderString / ParseAndFRender, 6 rebuilds of the binding maps in PRNG-permuted insertion order with different capacities, and a fresh child process re-rendering every case of the shard; plus a date family: date strings written in 16 layouts x 9 zone spellings, each rendered through the date filter and through comparisons after different histories of other date strings (what was parsed earlier in the process must not matter); plus the cmd/liquid binary (stdin and FILE argument, --env under env -i, with and without --strict) against the library. Non-trivial = the template consumes a map with >= 2 entries; distinct = distinct (template, logical bindings).",
+		Rule: "generated templates biased to what consumes maps (for/tablerow over maps of 2..12 entries with offset/limit/reversed, map-to-array filters first/last/join/sort/map/reverse/uniq/size/concat/compact, printing of maps, IterationKeyedMap, yaml.MapSlice, nested maps, maps inside Drops) plus general generated programs and application tags that write variables (Context.Set, and through the map Context.Bindings returns); for every case ALL of these must give byte-identical output (or the same error text, line and path): 30 renders of one parsed template, 10 fresh parses, 5 fresh engines, the six entry points Render / RenderString / FRender / ParseAndRender / ParseAndRenderString / ParseAndFRender (every fourth case also re-spelled with custom delimiters on engines configured with them), 6 rebuilds of the binding maps in PRNG-permuted insertion order with different capacities, and a fresh child process re-rendering every case of the shard; plus a date family: date strings written in 16 layouts x 9 zone spellings, each rendered through the date filter and through comparisons after different histories of other date strings (what was parsed earlier in the process must not matter); plus the cmd/liquid binary (stdin and FILE argument, --env under env -i, with and without --strict) against the library. Non-trivial = the template consumes a map with >= 2 entries; distinct = distinct (template, logical bindings).",
 		Exhaustive: func(string) bool { return false },
 		Assumptions: []string{
 			"the map/program templates never use date/now and children run with TZ=UTC (the property exempts clock and time zone); the date family parses fixed date strings (never now) and is compared within one process only, where the time zone is one",
@@ -230,6 +230,35 @@ func runC02(c *core.Ctx) {
 			add("RenderString", core.RenderString(tpl, b0))
 			add("FRender", core.FRender(tpl, nil, b0))
 		}
+		if i%4 == 1 {
+			// the same template written with custom delimiters, on engines configured with them: every entry point again
+			d := [4]string{"<<", ">>", "<%", "%>"}
+			if rs, toks := respell(cs.src, d); sameTokens(toks, c19Tokens(rs, d)) {
+				mk := func() *liquid.Engine { return c02Engine().Delims(d[0], d[1], d[2], d[3]) }
+				ce := mk()
+				var custom []obs
+				cadd := func(how string, r core.Res) { custom = append(custom, obs{how + " (custom delimiters)", r}) }
+				cadd("Run", core.Run(ce, rs, b0))
+				cadd("ParseAndRender", core.ParseAndRender(ce, rs, b0))
+				cadd("ParseAndRenderString", core.ParseAndRenderString(ce, rs, b0))
+				cadd("ParseAndFRender", core.ParseAndFRender(ce, nil, rs, b0))
+				cadd("fresh engine ParseAndRenderString", core.ParseAndRenderString(mk(), rs, b0))
+				if t2, p2 := core.ParsePlain(ce, rs); p2.OK() {
+					cadd("RenderString", core.RenderString(t2, b0))
+					cadd("FRender", core.FRender(t2, nil, b0))
+				}
+				c.Eval(len(custom))
+				c.Obs("executions_compared", int64(len(custom)))
+				c.Obs("custom_delimiter_cases", 1)
+				for _, o := range custom[1:] {
+					if !o.r.Same(custom[0].r) {
+						c.Violate("nondeterministic|custom-delimiters|"+c18Feature(cs.src), "on an engine configured with custom delimiters the entry points disagree about the same template and bindings",
+							map[string]any{"source": rs, "bindings": core.Trunc(cs.env.String(), 600), custom[0].how: custom[0].r.Brief(), o.how: o.r.Brief()})
+						break
+					}
+				}
+			}
+		}
 		add("ParseAndRender", core.ParseAndRender(e, cs.src, b0))
 		add("ParseAndRenderString", core.ParseAndRenderString(e, cs.src, b0))
 		add("ParseAndFRender", core.ParseAndFRender(e, nil, cs.src, b0))
@@ -334,7 +363,9 @@ func c02CLI(c *core.Ctx) {
 		envs := map[string]string{"NAME": []string{"world", "a b", "", "héllo"}[r.Intn(4)], "N": fmt.Sprint(r.Range(0, 9)), "LIST": "a,b,c"}
 		tpls := []string{"Hello {{ NAME }}!", "{{ NAME | upcase | append: N }}", "{% assign parts = LIST | split: ',' %}{% for p in parts reversed %}{{ p }}{% endfor %}",
 			"{% if NAME == 'world' %}w{% else %}o{% endif %}{{ N | plus: 1 }}", "{{ UNDEFINED_VAR }}x", "{{ NAME | nosuchfilter }}", "{% if %}", "plain text\nline two\n",
-			"{{ N | divided_by: 0 }}", "{% for i in (1..3) %}{{ i }}{{ NAME }}{% endfor %}", "{{ 'a' | append: LIST | size }}"}
+			"{{ N | divided_by: 0 }}", "{% for i in (1..3) %}{{ i }}{{ NAME }}{% endfor %}", "{{ 'a' | append: LIST | size }}",
+			// output that a formatting function would misread
+			"50% off for {{ NAME }}: 100%d %s %v %%", "{{ NAME | url_encode }}|{{ 'a b&c=d' | url_encode }}", "{% raw %}{% if x %}{{ y }}{% endraw %} %!(EXTRA)", "tab\there \\n\x00{{ N }}%"}
 		src := tpls[r.Intn(len(tpls))]
 		strict := r.Bool()
 		useEnv := r.P(3, 4)
